@@ -70,6 +70,16 @@ def _validate_axes_structure(graph: zarr.Group, meta: GeffMetadata) -> None:
                 raise ValueError(f"Axis property {ax.name} has {ndim} dimensions, must be 1D")
 
 
+def _dtype_matches(actual: np.dtype, stated: str) -> bool:
+    """True if an array of dtype `actual` holds data of the dtype `stated` in the metadata."""
+    expected = np.dtype(stated)
+    # Strings are stored as variable length UTF8 strings (numpy StringDType, kind "T"),
+    # fixed width unicode arrays (kind "U") hold strings as well
+    if expected.kind in ("U", "T"):
+        return np.dtype(actual).kind in ("U", "T")
+    return bool(np.issubdtype(actual, expected))
+
+
 def _validate_props_group(
     props_group: zarr.Group,
     expected_len: int,
@@ -112,14 +122,14 @@ def _validate_props_group(
                     f"Varlength property {prop_name} values array does not have type uint64"
                 )
             # data array dtype should match metadata dtype
-            if not np.issubdtype(data_arr.dtype, np.dtype(prop_metadata.dtype)):
+            if not _dtype_matches(data_arr.dtype, prop_metadata.dtype):
                 raise ValueError(
                     f"Property {prop_name} has stated dtype {prop_metadata.dtype} but actual "
-                    f"dtype {val_arr.dtype}"
+                    f"dtype {data_arr.dtype}"
                 )
         else:
             # check value dtype against metadata dtype
-            if not np.issubdtype(val_arr.dtype, np.dtype(prop_metadata.dtype)):
+            if not _dtype_matches(val_arr.dtype, prop_metadata.dtype):
                 raise ValueError(
                     f"Property {prop_name} has stated dtype {prop_metadata.dtype} but actual "
                     f"dtype {val_arr.dtype}"
